@@ -2,9 +2,20 @@
 import ast
 
 from py2lean_types import (Unsupported, Impure, TInt, TBool, TStr, TNone, TRange, TErased, TList, TOpt, TTuple,
-                           TDict, TObj, TAbs, TExc, TUnion, TVar, INT, BOOL, STR, NONE, RANGE, ERASED,
+                           TDict, TObj, TAbs, TExc, TUnion, TVar, THet, INT, BOOL, STR, NONE, RANGE, ERASED,
                            resolve, unify, join, coerce, proj, iter_elem)
 from py2lean_expr import src, indent, TyRef, lstr
+
+
+def const_int(node):
+    if node is None:
+        return None
+    if isinstance(node, ast.Constant) and isinstance(node.value, int) and not isinstance(node.value, bool):
+        return node.value
+    if isinstance(node, ast.UnaryOp) and isinstance(node.op, ast.USub):
+        v = const_int(node.operand)
+        return -v if v is not None else None
+    return None
 
 
 class CallMixin:
@@ -16,6 +27,12 @@ class CallMixin:
         def fin(vs):
             (c, t), (i, ti) = vs
             t = resolve(t)
+            if isinstance(t, THet):
+                idx = const_int(e.slice)
+                n = len(t.tails)
+                if idx is not None and -n <= idx < 0:
+                    return k(proj(c, n + 1 + idx, n + 1), t.tails[n + idx])
+                raise Unsupported("subscript of a record-like list: " + src(e))
             if isinstance(t, TTuple):
                 if isinstance(e.slice, ast.Constant) and isinstance(e.slice.value, int) \
                         and -len(t.elems) <= e.slice.value < len(t.elems):
@@ -36,6 +53,13 @@ class CallMixin:
         s = e.slice
 
         def with_list(c, t):
+            t = resolve(t)
+            if isinstance(t, THet):
+                n = len(t.tails)
+                if s.lower is None and s.step is None and const_int(s.upper) == -n:
+                    return k(proj(c, 0, n + 1), TList(t.elem))
+                raise Unsupported("slice of a record-like list: " + src(e))
+
             def go(l, el):
                 if s.step is not None:
                     if s.lower is None and s.upper is None and isinstance(s.step, ast.UnaryOp) \
